@@ -1,6 +1,7 @@
 import Gomjml.Core.Cdata
+import Gomjml.Core.Lines
 import Driver.TagP
-/-! driver sub-protocols for the parser's textual pre-passes: `amp`, `ent`, `strip`, `cdesc` (hex in, hex out) -/
+/-! driver sub-protocols for the parser's textual pre-passes: `amp`, `ent`, `strip`, `cdesc`, `wrap` (wrapMJTextContent), `pre` (all three passes in ParseMJML's order) (hex in, hex out) -/
 open Gomjml.Passes
 
 namespace Driver.PassP
@@ -20,6 +21,8 @@ def handle (which : String) (args : List String) : String :=
   | "ent" => run1 entities args
   | "strip" => run1 strip args
   | "cdesc" => run1 Rr args
+  | "wrap" => run1 Gomjml.Lines.wrap args
+  | "pre" => run1 Gomjml.Lines.preprocess args
   | "cdrt" => run1 (fun s => match cdataDecode (cdataWrap' s) with | some r => r | none => [33]) args
   | _ => "bad-request"
 
